@@ -8,7 +8,8 @@ RULE = ("unit cases: the real DownloadNode + Segmentation with 1-4 concurrent re
         "real blocks (good, one corrupted -> BadCiphertextHashError, k+1 blocks -> decode failure) or fetch_failed(NotEnoughShares|NoShares|"
         "BadSegmentNumber), consumer pause/resume/stop, wrong segment-size guesses, every queued eventual-send run one at a time, then driven "
         "to quiescence; non-trivial = at least one failed segment or a stop/pause; grid cases: real downloads of files with a wrong crypttext "
-        "hash leaf and/or an injected decode failure, deleted/corrupted shares and erroring servers, 2-5 reads (sequential and concurrent) on "
+        "hash leaf and/or an injected decode failure, deleted/corrupted shares, erroring servers and servers whose connection is lost "
+        "(get_buckets fails at once with DeadReferenceError, an already-failed Deferred) leaving fewer than k shares, 2-5 reads (sequential and concurrent) on "
         "the same node; non-trivial = a failing segment followed by a further read on the node")
 META = {
     "title": "Immutable reads always terminate",
@@ -199,7 +200,7 @@ def gen_grid_case(r):
     size = max(56, seg * nseg - r.choice([0, 1, seg // 2, seg - 1]))      # > 55 bytes: not a literal file
     nseg = -(-size // (-(-seg // k) * k))
     servers = r.choice([n, n + 1, n + 3, max(2, n - 1)])
-    mode = r.choice(["badleaf", "badleaf", "decode", "both", "shares", "none", "short", "short", "header"])
+    mode = r.choice(["badleaf", "badleaf", "decode", "both", "shares", "none", "short", "short", "header", "deadref", "deadref"])
     badleaf = sorted(r.sample(range(nseg), r.choice([1, 1, 2]) if nseg > 1 else 1)) if mode in ("badleaf", "both") else []
     decode_fail = sorted(r.sample(range(8), r.choice([1, 2]))) if mode in ("decode", "both") else []   # nth decode calls that fail
     reads = []
@@ -231,8 +232,16 @@ def gen_grid_case(r):
     if mode == "header":
         for _ in range(r.choice([1, 1, 2])):
             header.append([r.randrange(n), r.randrange(0, 9), r.choice([0, 1, 35, 36, 37, 100, 2 ** 31, 2 ** 32 - 1, r.randrange(0, 400)])])
+    sync_dead = []
+    if mode == "deadref":
+        # lost connections: get_buckets of these servers fails at once (already-failed Deferred), and so many of them
+        # that fewer than k shares are reachable in most cases: the read must fail, not hang
+        ndead = r.choice([servers, servers, servers - 1, max(1, servers - k + 1), 1])
+        sync_dead = sorted(r.sample(range(servers), max(1, min(servers, ndead))))
+        if r.random() < 0.5:
+            delete = sorted(set(delete + r.sample(range(n), r.choice([n, n - k + 1, 1]))))
     return {"k": k, "n": n, "servers": servers, "segsize": seg, "size": size, "badleaf": badleaf, "decode_fail": decode_fail,
-            "reads": reads, "concurrent": concurrent, "plan": plan, "delete": delete, "truncate": truncate, "header": header,
+            "reads": reads, "concurrent": concurrent, "plan": plan, "delete": delete, "truncate": truncate, "header": header, "sync_dead": sync_dead,
             "threads": r.random() < 0.15, "seed": r.getrandbits(30)}
 
 
@@ -274,6 +283,7 @@ def run_grid_case(case):
                     return defer.fail(RuntimeError("harness: decode failure"))
                 return real_decoder.decode(self, some_shares, their_shareids)
         NODE.CRSDecoder = FailingDecoder
+        restore_refs = SQ.make_dyhb_fail_synchronously(g, [sv for sv in case.get("sync_dead", []) if sv < case["servers"]])
         try:
             g.set_faults(case["plan"])
             if case["concurrent"]:
@@ -287,6 +297,7 @@ def run_grid_case(case):
                     outcomes.append(g.run(download_to_data(node, off, sz), outcome=True))
         finally:
             NODE.CRSDecoder = real_decoder
+            restore_refs()
     return outcomes, data
 
 
@@ -305,7 +316,9 @@ def judge_grid_case(ctx, case, outcomes, data):
         want = data[off:] if sz is None else data[off:off + sz]
         if st in ("hung", "timeout"):
             kind = "read-never-completes"
-            if case["badleaf"] or case["decode_fail"]:
+            if case.get("sync_dead") and st == "hung":
+                kind = "read-hangs-after-lost-connection"
+            elif case["badleaf"] or case["decode_fail"]:
                 kind = "read-never-completes-after-failed-segment"
             elif st == "timeout" and (case.get("truncate") or case.get("header") or any(f.get("how") == "empty" for f in case["plan"])):
                 kind = "read-spins-on-short-answer"
